@@ -735,16 +735,20 @@ var spec = &hx.Spec[Case]{
 	Rule: "cases = (chain of Router[2..3]/Failover[2..3]/Cache[+repair]/Swap/Dedup over in-memory leaves incl. the shapes the CLI builds, 4 chunk IDs, " +
 		"per-leaf faults down / fail-at-call-k / invalid object) x (sequential history of <=33 get/has/store/swap (incl. swaps a writable swap store has to refuse)/break/heal/corrupt steps compared step by step with a reference model, " +
 		"or a concurrent phase of 2..6 goroutines x 1..4 rounds against failover/swap chains with a controller swapping/breaking/healing and generated yields at failover.selected/swap.locked); " +
+		"or a race case (1 in 64, and a fixed grid of 12): failover group of 3..5 members of which exactly one never fails, 2..48 goroutines x 1..4 get/has requests for a held and an absent chunk on 25..600 fresh groups, " +
+		"either with every first request held inside the first failing member until all are inside and then released at once or staggered (late failure reports), or with generated yields at failover.selected; " +
 		"plus, when the built command is available, CLI cases (3 in 512 quick / 1 in 32 thorough, and a fixed grid of 40): desync extract / cat / chunk-server --store-file + SIGHUP given 1..3 -s entries " +
 		"(directory, harness HTTP chunk server, raw file server, failover group a|b of 2..3) and an optional -c cache (directory or writable HTTP store) with --cache-repair default/true/false, per member absent/valid/invalid objects and down = connection refused / always 500; " +
 		"non-trivial = history with a failover advance, a cache fill or a cache repair, or concurrent case with a failover advance or a swap issued while >=1 request was in flight, " +
-		"or CLI case whose documented resolution needs a failover advance, a cache fill or a cache repair; distinct by the whole case",
+		"or race case in which members failed under >=2 goroutines, or CLI case whose documented resolution needs a failover advance, a cache fill or a cache repair; distinct by the whole case",
 	Assumptions: []string{
 		"leaves are in-memory stores that verify stored bytes against the ID like a real store (ChunkInvalid) and report absence as ChunkMissing",
 		"reference model written from README (Caching, Multiple chunk stores, Store failover, Dynamic store configuration) and type doc comments; only result classes and the side effects named in the statement are compared",
 		"whether a request fails when filling the cache fails is not documented: no verdict for such a step",
 		"concurrent oracle: a failover member counts as healthy only if it has no fault of any kind during the whole phase; expectations only for IDs that every chain version serves (or lacks) by construction",
 		"interleavings come from the Go scheduler plus generated yields; a green concurrent phase is evidence, not proof",
+		"race cases: there is no hook between a request's failure report and its next member selection, so a late report of another request cannot be placed there by force; the harness holds and releases the requests around it and repeats; the demand (every request for a held chunk succeeds, an absent one is reported missing) holds on every schedule",
+		"a writable swap store must refuse a store that cannot be written and leave the wrapped store open; an accepted swap closes every leaf of the replaced chain exactly once",
 		"CLI cases: only the exit status, the output, the cache directory afterwards and the request logs of the harness HTTP stores are observed; one-shot commands are judged by an order-free evaluation of the same model " +
 			"(no verdict on the exit status when members of one failover group differ for an ID and requests are concurrent); with --cache-repair=false an invalid cache entry must make the command fail (README, Caching); " +
 			"the chunk server is started with --skip-verify-read=false and driven by one sequential client; the reload is recognised only by the server's own answer for a marker chunk; a child that exceeds its time limit gives no verdict",
